@@ -129,6 +129,21 @@ def norm(f):
     return {m: {"ok": bool(f[m]["ok"]), "vars": sorted(f[m]["vars"])} for m in MODELS}
 
 
+def ordered_vars(tree):
+    """per model: the flat variables in the order in which the back ends list them (generators sort the flat
+    class's symbols by Symbol.order, a stable sort).  Must not depend on the order in which the files were merged."""
+    from pymoca import ast, tree as ptree
+    out = {}
+    for m in MODELS:
+        try:
+            r = ptree.flatten(pickle.loads(pickle.dumps(tree)), ast.ComponentRef.from_string(m))
+            fc = list(r.classes.values())[-1]
+            out[m] = [s.name for s in sorted(fc.symbols.values(), key=lambda x: x.order)]
+        except Exception as e:
+            out[m] = ["<%s>" % type(e).__name__]
+    return out
+
+
 def _drop_order(x):
     """Symbol.order is a per-FILE declaration counter (parser.ASTListener.sym_count), so its absolute value depends on
     how the library is cut into files by construction; it is not part of the flattened model's content."""
@@ -207,7 +222,7 @@ def compile_route(folder, order_files, model):
         try:
             m = api._compile_model(folder, model, api._merge_default_options({}))
             s = ct._casadi_sig(m)
-            return _norm_casadi(["ok", ct.digest(s), s])
+            return _norm_casadi(["ok", ct.digest(s), s]) + [ct.digest(s)]
         except MachineryError:
             raise
         except Exception as e:
@@ -274,7 +289,7 @@ def run_path(item, corrupt=False):
     shape = _G["shapes"][item["shape"]]
     cuts = item["cuts"]
     texts = [file_text(s["file"], cuts, shape) for s in item["steps"]]
-    res = {"viol": [], "drift": [], "steps": 0, "routes": 0}
+    res = {"viol": [], "drift": [], "steps": 0, "routes": 0, "order": {}, "casadi_order": {}}
     ref = single_file(item["shape"])
     for style in ("first-as-base", "empty-root-as-base"):
         for k, st in enumerate(item["steps"]):
@@ -297,6 +312,7 @@ def run_path(item, corrupt=False):
                 continue
             # differential oracle: one file holding exactly the union of the files merged so far
             if complete:
+                res["order"][style] = ordered_vars(tree)
                 for m in MODELS:
                     a = json_of(tree, m)
                     if not ct.same_outcome(a, ref["json"][m]):
@@ -324,6 +340,7 @@ def run_path(item, corrupt=False):
             for m in MODELS:
                 a = compile_route(d, names, m)
                 res["routes"] += 1
+                res["casadi_order"][m] = a[3] if a[0] == "ok" else a[1]
                 if not ct.same_outcome(a, ref["casadi"][m]):
                     res["viol"].append({"observable": "casadi-compile-model-vs-single-file", "style": "os.walk", "models": [m],
                                         "explained": norm(last["asbuilt"])[m] != norm(last["flats"])[m],
@@ -435,6 +452,36 @@ def run(ctx):
                             "first_file": file_text(it["steps"][0]["file"], it["cuts"], shapes[it["shape"]]),
                             "expected_flat_variables": norm(it["steps"][-1]["flats"]),
                             "violations": [v["detail"][:200] for v in res["viol"]][:2]}, limit=3)
+        # across the permutations of ONE split the back ends must list the variables of a model in the same order
+        groups = {}
+        for it, res in zip(items, results):
+            groups.setdefault((it["shape"], tuple(it["cuts"])), []).append((it, res))
+        cov["order_groups"] = 0
+        cov["order_comparisons"] = 0
+        for (sh, cuts), members in groups.items():
+            if len(members) < 2:
+                continue
+            cov["order_groups"] += 1
+            it0, res0 = members[0]
+            for it, res in members[1:]:
+                for kind, a, b in [("flatten:" + st, res0["order"].get(st), res["order"].get(st)) for st in ("first-as-base", "empty-root-as-base")] + \
+                                  [("casadi-compile", res0["casadi_order"] or None, res["casadi_order"] or None)]:
+                    if not a or not b:
+                        continue
+                    cov["order_comparisons"] += 1
+                    bad = [m for m in MODELS if a.get(m) != b.get(m)]
+                    if bad:
+                        cov["violations"] += 1
+                        o0, o1 = [x["file"] for x in it0["steps"]], [x["file"] for x in it["steps"]]
+                        ctx.violation({"observable": "variable-order-depends-on-file-order", "tags": ["files:%d" % len(it["steps"]), "via:" + kind.split(":")[0]],
+                                       "exception_type": None,
+                                       "detail": "shape %s, split at %s: %s lists the variables of %s as %s after file order %s but as %s after %s" % (
+                                           json.dumps(shapes[sh]), list(cuts), kind, bad[0], a[bad[0]], o0, b[bad[0]], o1)},
+                                      {"kind": "order-pair", "shape": sh, "shape_def": shapes[sh], "cuts": list(cuts),
+                                       "steps": it0["steps"], "steps_b": it["steps"], "via": kind})
+        if cov["order_comparisons"] < 1000:
+            raise MachineryError("vacuous: only %d variable-order comparisons between file orders" % cov["order_comparisons"])
+        cov["nested_layout_runs"] = nested_layout_runs(ctx, shapes, thorough)
         if cov["route_runs"] < 500:
             raise MachineryError("vacuous: only %d discovery-route runs" % cov["route_runs"])
         if not cov["asbuilt_predicts_visible_deviation"]:
@@ -457,6 +504,101 @@ def run(ctx):
         "module object seen by casadi/api.py and by a Path subclass with an ordered glob()",
     ]
     return {"exhaustive": True}
+
+
+def nested_paths(cuts):
+    """the standard Modelica directory layout: a package that has its own file is <dir>/package.mo"""
+    out = {"Lib": "Lib/package.mo"}
+    for c in cuts:
+        out[c] = {"Lib.Sub": "Lib/Sub/package.mo", "Lib.Sub.MS": "Lib/Sub/MS.mo", "Lib.M1": "Lib/M1.mo", "Lib.M2": "Lib/M2.mo"}[c]
+    return out
+
+
+class _WalkRank(_OsProxy):
+    """orders files and sub-directories of every directory by a rank on names (reverse = descending)"""
+
+    def __init__(self, real, reverse):
+        self._real, self._reverse = real, reverse
+
+    def walk(self, top, **kw):
+        for root, dirs, files in self._real.walk(top, **kw):
+            dirs.sort(reverse=self._reverse)
+            yield root, dirs, sorted(files, reverse=self._reverse)
+
+
+def nested_layout_runs(ctx, shapes, thorough, only_cuts=None):
+    """both discovery routes on the nested directory layout (same-named files - package.mo - at several levels), with the
+    listing of every directory ascending and descending"""
+    import pathlib
+    from pymoca.backends.casadi import api
+    n = 0
+    all_cuts = only_cuts or [list(c) for k in range(5) for c in itertools.combinations(["Lib.M1", "Lib.M2", "Lib.Sub", "Lib.Sub.MS"], k)]
+    for sid, shape in shapes.items():
+        if not thorough and sid not in (4, 6):
+            continue
+        ref = single_file(sid)
+        for cuts in all_cuts:
+            d = tempfile.mkdtemp(prefix="nest_", dir=_G["scratch"])
+            ct.private_cache_env(_G["scratch"])
+            for root, rel in nested_paths(cuts).items():
+                os.makedirs(os.path.dirname(os.path.join(d, rel)), exist_ok=True)
+                with open(os.path.join(d, rel), "w") as f:
+                    f.write(file_text(root, cuts, shape))
+            for reverse in (False, True):
+                real_os = api.os
+                for m in MODELS:
+                    api.os = _WalkRank(real_os, reverse)
+                    try:
+                        try:
+                            mm = api._compile_model(d, m, api._merge_default_options({}))
+                            sig = ct._casadi_sig(mm)
+                            a = _norm_casadi(["ok", ct.digest(sig), sig])
+                        except MachineryError:
+                            raise
+                        except Exception as e:
+                            a = ["exc", type(e).__name__, str(e)[:200].replace("\n", " ")]
+                    finally:
+                        api.os = real_os
+                    n += 1
+                    if not ct.same_outcome(a, ref["casadi"][m]):
+                        ctx.violation({"observable": "casadi-compile-model-vs-single-file",
+                                       "tags": ["files:%d" % (len(cuts) + 1), "style:nested-directories", NOT_EXPLAINS], "exception_type": None,
+                                       "detail": "api._compile_model(%s) on the nested layout %s (listing %s): %s %s, single-file library %s" % (
+                                           m, sorted(nested_paths(cuts).values()), "descending" if reverse else "ascending", ct.short(a),
+                                           a[2][:120] if a[0] == "exc" else "", ct.short(ref["casadi"][m]))},
+                                      {"kind": "nested", "shape": sid, "shape_def": shape, "cuts": cuts})
+                # tools/compiler.py parse_all on the directory
+                mod = ct.cli_module()
+                base = type(pathlib.Path())
+
+                class RankedPath(base):
+                    def glob(self, pattern, **kw):
+                        return iter(sorted(super().glob(pattern, **kw), key=str, reverse=reverse))
+
+                import pymoca.ast
+                lib = pymoca.ast.Tree(name="ModelicaTree")
+                files, errors = mod.parse_all([RankedPath(d)], lib)
+                for m in MODELS:
+                    try:
+                        got = _norm_flat(["ok", "", ct.tree_json(mod.flatten_class(pickle.loads(pickle.dumps(lib)), m))])
+                    except Exception as e:
+                        got = ["exc", type(e).__name__, str(e)[:200]]
+                    n += 1
+                    if errors or not ct.same_outcome(got, ref["json"][m]):
+                        ctx.violation({"observable": "compiler-parse_all-vs-single-file",
+                                       "tags": ["files:%d" % (len(cuts) + 1), "style:nested-directories", NOT_EXPLAINS], "exception_type": None,
+                                       "detail": "compiler.parse_all on the nested layout %s (%s) then flatten_class(%s): %s, single-file library %s" % (
+                                           sorted(nested_paths(cuts).values()), "descending" if reverse else "ascending", m, ct.short(got), ct.short(ref["json"][m]))},
+                                      {"kind": "nested", "shape": sid, "shape_def": shape, "cuts": cuts})
+            shutil.rmtree(d, ignore_errors=True)
+    if n < 300 and only_cuts is None:
+        raise MachineryError("vacuous: only %d nested-layout runs" % n)
+    return n
+
+
+def _nested_replay(ctx, shapes, cuts):
+    """re-run the nested-layout comparison for one split (reports through ctx)"""
+    nested_layout_runs(ctx, shapes, True, only_cuts=[list(cuts)])
 
 
 def natural_order_runs(ctx, shapes):
@@ -500,6 +642,25 @@ def replay(ctx, sc):
             natural_order_runs(ctx, {sc["shape"]: sc["shape_def"]})
             return []          # natural_order_runs reports through ctx itself
         _G.update(shapes={sc["shape"]: sc["shape_def"]}, scratch=scratch)
+        if sc.get("kind") == "nested":
+            nested_one = {sc["shape"]: sc["shape_def"]}
+            _nested_replay(ctx, nested_one, sc["cuts"])
+            return []
+        if sc.get("kind") == "order-pair":
+            recs = []
+            ra = run_path({"shape": sc["shape"], "cuts": sc["cuts"], "steps": sc["steps"], "routes": sc["via"] == "casadi-compile"})
+            rb = run_path({"shape": sc["shape"], "cuts": sc["cuts"], "steps": sc["steps_b"], "routes": sc["via"] == "casadi-compile"})
+            if sc["via"] == "casadi-compile":
+                a, b = ra["casadi_order"], rb["casadi_order"]
+            else:
+                st = sc["via"].split(":", 1)[1]
+                a, b = ra["order"].get(st, {}), rb["order"].get(st, {})
+            bad = [m for m in MODELS if a.get(m) != b.get(m)]
+            if bad:
+                recs.append({"observable": "variable-order-depends-on-file-order",
+                             "tags": ["files:%d" % len(sc["steps"]), "via:" + sc["via"].split(":")[0]], "exception_type": None,
+                             "detail": "%s: %s vs %s" % (bad[0], a.get(bad[0]), b.get(bad[0]))})
+            return recs
         item = {"shape": sc["shape"], "cuts": sc["cuts"], "steps": sc["steps"],
                 "routes": sc["observable"] in ("casadi-compile-model-vs-single-file", "compiler-parse_all-vs-single-file")}
         res = run_path(item)
